@@ -82,7 +82,7 @@ class _Watchdog:
 class Staged:
     """One generated module through the real pipeline."""
 
-    def __init__(self, text: str, fn: str = "f", want_steps: bool = False, hoist: bool = True):
+    def __init__(self, text: str, fn: str = "f", want_steps: bool = False, hoist: bool = True, trace: bool = True):
         self.text = text
         self.fn = fn
         self.error = None
@@ -95,7 +95,8 @@ class Staged:
                 mod = accir.parse(text)
                 self.names.preseed(mod)
                 self.before = accir.convert_module(mod, self.names)[fn]
-                accir.trace_states(mod)
+                if trace:
+                    accir.trace_states(mod)
                 self.traced = accir.convert_module(mod, self.names)[fn]
                 self.table = real_table(mod, self.names, fn)
                 self.traced_text = accir.print_module(mod)
